@@ -4,6 +4,8 @@ CONSTANTS
   InitUp = 2
   MaxFaults = 3
   FaultKinds = {"add", "remove", "unlist", "stop", "start", "restart", "droppooled", "dropctrl", "dropall"}
+  Hosts = {"h1", "h2", "h3"}
+  FirstHost = "h1"
   TimerStoppedOnClose = TRUE
 INVARIANTS ExportHazard
 CHECK_DEADLOCK FALSE
